@@ -2,13 +2,14 @@
 from .. import common as K
 from .. import draw_rules as D
 from .c18 import rule_commit_on_success
+from .c03 import rule_suspend_protocol
 
 EXPLANATION = ("Decides the emit protocol of the one paint routine: TermLike effects only in the emitter (reachable only "
                "through Drawable::draw); every successful return repositions over the previous frame (move_cursor_up by the "
                "previous row count; clear_line in a loop bounded by it), paints, flushes, then commits the new row count; the "
                "commit is dominated by the success edge of flush()? and is the last fallible step; the committed value derives "
                "from the wrap-aware height of the lines painted; last_line_count is written only by the emitter and the "
-               "MultiState-only adjust functions.")
+               "MultiState-only adjust functions; suspend clears the frame before the closure (whenever there is a drawable) and force-redraws after.")
 UNDECIDED = ("The row arithmetic itself (saturating_sub(1), filler width, wrapped heights, empty-first-line miscount) and the "
              "screen contents for every history/text/width are value-level and not decided.")
 
@@ -20,3 +21,4 @@ def run(ctx, crate):
     D.rule_draw_order(ctx, crate)
     rule_commit_on_success(ctx, crate)
     D.rule_llc_writers(ctx, crate)
+    rule_suspend_protocol(ctx, crate)
